@@ -392,6 +392,7 @@ func (svr *Server) Serve() error {
 	var pkt requestPacket
 	var pktType fxp
 	var pktBytes []byte
+recvLoop:
 	for {
 		pktType, pktBytes, err = svr.serverConn.recvPacket(svr.pktMgr.getNextOrderID())
 		if err != nil {
@@ -415,7 +416,9 @@ func (svr *Server) Serve() error {
 			default:
 				debug("makePacket err: %v", err)
 				svr.conn.Close() // shuts down recvPacket
-				break
+				// a packet that failed to decode must not be dispatched: leave the receive loop,
+				// not just the switch (pkt is partially decoded, or nil for an unknown type).
+				break recvLoop
 			}
 		}
 
